@@ -285,4 +285,13 @@ Sec *find_section(std::string const &name);
 #define VERIF_CAT2(a, b) a##b
 #define VERIF_CAT(a, b) VERIF_CAT2(a, b)
 
+// A type-level / compile-time fact about the library that a property relies on: checked where it is
+// used, but reported as a run-time violation rather than by a static assertion, so that a tree in
+// which it is false yields a VIOLATION of the property and not a harness that does not compile.
+#define VERIF_TYPE_FACT(cond, text)                                                              \
+  do                                                                                             \
+  {                                                                                              \
+    if constexpr (!(cond)) ::verif::fail("type-level-fact|" text, "does not hold: " text);       \
+  } while (false)
+
 #endif
